@@ -173,38 +173,41 @@ def single (cs : List Char) : Option Char :=
   | [c] => some c
   | _ => none
 
+/-- the alternatives that start with a digit: strings.Split on "-", "/", "#", "L" -/
+def shapeTail (cs : List Char) : Option Shape :=
+  match splitOn '-' cs with
+  | [a, r] =>
+    if allDigits a then
+      match splitOn '/' r with
+      | [b] => if allDigits b then some (.range a b) else none
+      | [b, s] => if allDigits b && allDigits s then some (.rangeStep a b s) else none
+      | _ => none
+    else none
+  | [d] =>
+    match splitOn '#' d with
+    | [w, n] =>
+      match single w, single n with
+      | some w, some n => if '1' ≤ w && w ≤ '7' && '1' ≤ n && n ≤ '5' then some (.nth w n) else none
+      | _, _ => none
+    | [x] =>
+      match splitOn 'L' x with
+      | [w, e] =>
+        match single w with
+        | some w => if e.isEmpty && '1' ≤ w && w ≤ '7' then some (.wL w) else none
+        | none => none
+      | [y] => if allDigits y then some (.num y) else none
+      | _ => none
+    | _ => none
+  | _ => none
+
 /-- which alternative matches; the tests follow the order in which cronParseSpecField takes the text
-    apart ("*", "L", "*/", strings.Split on "-", "/", "#", "L") -/
+    apart ("*", "L", "*/", then the splits) -/
 def shape (cs : List Char) : Option Shape :=
   if cs = ['*'] then some .star
   else if cs = ['L'] then some .L
   else if cs.head? = some '*' then
     (if (cs.drop 1).head? = some '/' && allDigits (cs.drop 2) then some (.starStep (cs.drop 2)) else none)
-  else
-    match splitOn '-' cs with
-    | [a, r] =>
-      if allDigits a then
-        match splitOn '/' r with
-        | [b] => if allDigits b then some (.range a b) else none
-        | [b, s] => if allDigits b && allDigits s then some (.rangeStep a b s) else none
-        | _ => none
-      else none
-    | [d] =>
-      match splitOn '#' d with
-      | [w, n] =>
-        match single w, single n with
-        | some w, some n => if '1' ≤ w && w ≤ '7' && '1' ≤ n && n ≤ '5' then some (.nth w n) else none
-        | _, _ => none
-      | [x] =>
-        match splitOn 'L' x with
-        | [w, e] =>
-          match single w with
-          | some w => if e.isEmpty && '1' ≤ w && w ≤ '7' then some (.wL w) else none
-          | none => none
-        | [y] => if allDigits y then some (.num y) else none
-        | _ => none
-      | _ => none
-    | _ => none
+  else shapeTail cs
 
 /-- does cronField<k>.reg have this alternative -/
 def regexAllows (k : Kind) : Shape → Bool
@@ -216,6 +219,7 @@ def regexAllows (k : Kind) : Shape → Bool
 
 /-- result of handling one option in the loop of cronParseSpecField -/
 inductive Opt | wildcard | item (i : Item)
+  deriving DecidableEq
 
 /-- the body of the loop over `fieldOptions` (regexp, then the value checks with cronParseInt) -/
 def parseOption (k : Kind) (fo : List Char) : Option Opt :=
